@@ -13,6 +13,9 @@ from pyvc import models
 MIX = "_griffe.mixins:ObjectAliasMixin."
 KINDS = ["Module", "Class", "Function", "Attribute", "Alias"]
 
+# these native replays search on their own (guided by the obligation / expected outcome), not from the abstract witness: one run per obligation
+REPLAY_KEYED_BY_EXPECTS = {"replay_visitor"}
+
 TRUSTED_BASE = [
     "documented visibility table = docstring of ObjectAliasMixin.is_public + docs/guide/users/navigating.md; `import *` rule = Python language reference 7.11",
     "objects handed to the predicates satisfy the model type invariant: name: str, public: bool|None, runtime: bool, parent: Module|Class|None, exports: list[str]|None, imports: dict[str,str]",
@@ -244,15 +247,21 @@ def c_visit_if(P):
 
 
 def install_alias_member_reads(P):
-    """Reading labels / docstring / annotation of an existing member that is an alias resolves it: value or AliasResolutionError / CyclicAliasError."""
+    """Reading labels / docstring / annotation of an existing member that is an alias resolves it: value or AliasResolutionError / CyclicAliasError.
+    Every read is recorded (ghost) with its outcome."""
+    reads = P.ghost.setdefault("alias_member_reads", [])
+
     def mk(attr):
         def hook(P_, o):
             which = P_.fresh_int("alias_read_" + attr)
             P_.assume(z3.And(which.z >= 0, which.z <= 2))
             if P_.branch(which.z == 1):
+                reads.append((o, attr, "raise"))
                 raise PyExc(SObj("AliasResolutionError", {"args": ()}))
             if P_.branch(which.z == 2):
+                reads.append((o, attr, "raise"))
                 raise PyExc(SObj("CyclicAliasError", {"args": ()}))
+            reads.append((o, attr, "ok"))
             return o.fields[attr]
         return hook
     for attr in ("labels", "docstring", "annotation"):
@@ -295,6 +304,11 @@ def c_handle_attribute(P):
     annotation = opt(P, "annotation", lambda: SObj("ExprValue", {}, ident=z3.Int("annotation_id"), frozen=True))
     q = VS + "handle_attribute"
     from pyvc.models import SymSet
+    # the docstring of the statement: what _get_docstring makes of the statement that follows (taken by contract, its own contract is visitor._get_docstring)
+    stmt_docs = []
+    inner_get_docstring = P.opaque_hooks[VS + "_get_docstring"]
+    P.opaque_hooks[VS + "_get_docstring"] = lambda P_, a, k: (stmt_docs.append(inner_get_docstring(P_, a, k)), stmt_docs[-1])[1]
+    alias_reads = P.ghost["alias_member_reads"]
 
     def hint_labels(P_, nm):
         return SymSet(items=[], parts=[sym_seq(P_, "carried_labels", lambda i: SStr(z3.Function("CARRIED_LABEL", IntS, StrS)(zint(i))))])
@@ -333,6 +347,26 @@ def c_handle_attribute(P):
         P_.prove("announced_once_after_being_placed", kinds == ["set_member", "on_instance", "on_attribute_instance"], kinds=str(kinds))
         ann_ev = [e for e in it_events if e[0] == "ext"]
         P_.prove("the_placed_object_is_the_one_announced", all((e[2].get("obj") or e[2].get("attr")) is obj for e in ann_ev))
+        # docstring: the literal that follows THIS statement; when there is none, the docstring of the member of THIS name that is being replaced
+        # (Griffe's documented tie-break); never something carried over from another name of the same assignment
+        sd = stmt_docs[-1] if stmt_docs else None
+        if isinstance(sd, SUnion):
+            sd = P_.choose(sd)
+        expected = sd
+        if sd is None and P_.branch(exists):
+            em = models.map_get(P_, target.fields["members"], name)
+            if P_.resolve_cls(em) == "Alias":
+                mine = [r for r in alias_reads if r[0] is em]
+                failed = any(r[2] == "raise" for r in mine if r[1] in ("labels", "docstring"))
+                expected = None if failed or not any(r[1] == "docstring" for r in mine) else em.fields["docstring"]
+            else:
+                expected = em.fields["docstring"]
+            if isinstance(expected, SUnion):
+                expected = P_.choose(expected)
+        got = obj.fields["docstring"]
+        if isinstance(got, SUnion):
+            got = P_.choose(got)
+        P_.prove("docstring_is_the_statements_or_else_the_replaced_members", P_.identical(got, expected), got=repr(got), expected=repr(expected))
     P.loop_specs[(q, 0)] = dict(mode="inv", name="names", no_break=True, post_body=post_body, may_write=("parent", "exports"),
                                 hints={"labels": hint_labels, "docstring": hint_doc, "annotation": hint_ann, "name": lambda P_, nm: P_.fresh_str(nm),
                                        "existing_member": lambda P_, nm: None, "attribute": lambda P_, nm: None})
@@ -346,6 +380,92 @@ def c_handle_attribute(P):
 @contract("C01", "visitor.handle_function.spans_flags_events", [VS + "handle_function"], floor=5, replay="replay_visitor", split=16)
 def c_handle_function_c01(P):
     VF.handle_function_driver(P, "C01")
+
+
+# =========================================================================== docstrings: text and line span agree with the source
+GD = "_griffe.agents.nodes.docstrings:get_docstring"
+
+
+@contract("C01", "nodes.get_docstring.literal_and_span", [GD], floor=4, replay="replay_visitor")
+def c_get_docstring(P):
+    """The docstring of a definition is the string literal that is its first statement (strict mode: the given expression statement itself), with the
+    literal's own line span -- also when the literal is the empty string; anything else (no body, another statement, a non-string constant, a
+    non-constant expression) is no docstring."""
+    strict = z3.Bool("strict")
+    P.witness["strict"] = SBool(strict)
+    P.expects["clause"] = "docstring"
+    lit_is_str = z3.Bool("literal_is_a_string")
+    text = P.fresh_str("literal_text")          # any string, "" included
+    const_value = SUnion([(lit_is_str, text), (z3.Not(lit_is_str), SInt(z3.Int("literal_number")))])
+    is_const = z3.Bool("expression_is_a_constant")
+    const = VF.ast_node(P, "ast.Constant", "literal", value=const_value)
+    other = VF.ast_node(P, "ast.Name", "other_expr")
+    expr_value = const if P.branch(is_const) else other
+    expr_stmt = VF.ast_node(P, "ast.Expr", "expr_stmt", value=expr_value)
+    shape = z3.Int("node_shape")     # 0: the node is the expression statement itself; 1: a definition whose first statement is it; 2: a definition starting with
+    P.assume(z3.And(shape >= 0, shape <= 3))     # another statement; 3: a definition with an empty body
+    P.witness["node_shape"] = SInt(shape)
+    if P.branch(shape == 0):
+        node = expr_stmt
+    elif P.branch(shape == 1):
+        node = VF.ast_node(P, "ast.FunctionDef", "definition", body=[expr_stmt, SObj("ast.stmt", {}, ident=z3.Int("second_stmt"), frozen=True)])
+    elif P.branch(shape == 2):
+        node = VF.ast_node(P, "ast.ClassDef", "definition", body=[VF.ast_node(P, "ast.Assign", "first_stmt"), expr_stmt])
+    else:
+        node = VF.ast_node(P, "ast.Module", "definition", body=[])
+    kind, res = outcome(P, lambda: call(P, GD, node, strict=SBool(strict)))
+    if kind == "raise":
+        P.prove("never_raises", False, exc=P.resolve_cls(res))
+        return
+    found = z3.And(is_const, lit_is_str, z3.Or(shape == 0, z3.And(shape == 1, z3.Not(strict))))
+    r = P.to_seq(res) if not isinstance(res, (tuple, list)) else res
+    value, lineno, endlineno = (r[0], r[1], r[2]) if isinstance(r, (tuple, list)) else (r.at(0), r.at(1), r.at(2))
+    none = zbool(P.identical(value, None))
+    P.prove("a_docstring_is_reported_exactly_for_a_leading_string_literal", z3.Not(none) == found)
+    if P.branch(found):
+        P.prove("text_is_the_literal_even_when_empty", zbool(P.eq(value, text)))
+        P.prove("span_is_the_literals", z3.And(zbool(P.eq(lineno, const.fields["lineno"])), zbool(P.eq(endlineno, const.fields["end_lineno"]))))
+    else:
+        P.prove("no_span_without_a_docstring", z3.And(zbool(P.identical(lineno, None)), zbool(P.identical(endlineno, None))))
+    P.cover("get_docstring")
+
+
+@contract("C01", "visitor._get_docstring.wraps_every_literal", [VS + "_get_docstring"], floor=4, replay="replay_visitor")
+def c_visitor_get_docstring(P):
+    """Visitor._get_docstring turns what get_docstring found into a Docstring carrying exactly that text and span and the visitor's parser settings;
+    no docstring object exactly when no literal was found -- an empty-string literal IS a docstring (CPython: __doc__ == '')."""
+    P.expects["clause"] = "docstring"
+    parser = SObj("Parser", {}, ident=z3.Int("parser_id"), frozen=True)
+    options = SObj("dict", {}, ident=z3.Int("options_id"), frozen=True)
+    v = SObj("Visitor", {"docstring_parser": parser, "docstring_options": options}, ident=z3.Int("visitor_id"))
+    node = VF.ast_node(P, "ast.FunctionDef", "definition")
+    has = z3.Bool("literal_found")
+    text = P.fresh_str("literal_text")
+    ln, eln = P.fresh_int("literal_lineno"), P.fresh_int("literal_end_lineno")
+    strict = z3.Bool("strict")
+    seen = []
+
+    def get_docstring(P_, a, k):
+        seen.append((a, dict(k)))
+        if P_.branch(has):
+            return (text, ln, eln)
+        return (None, None, None)
+    P.opaque_hooks[GD] = get_docstring
+    P.opaque_hooks["_griffe.agents.visitor:get_docstring"] = get_docstring
+    made = []
+    P.opaque_hooks["new:Docstring"] = lambda P_, a, k: (made.append((a, dict(k))), SObj("Docstring", {"value": a[0] if a else k.get("value"), **{x: k.get(x) for x in ("lineno", "endlineno", "parser", "parser_options")}}, ident=P_.new_ident()))[1]
+    kind, res = outcome(P, lambda: call(P, VS + "_get_docstring", v, node, strict=SBool(strict)))
+    if kind == "raise":
+        P.prove("never_raises", False, exc=P.resolve_cls(res))
+        return
+    P.prove("asks_get_docstring_about_this_node_with_the_same_strictness", len(seen) == 1 and seen[0][0][0] is node and zbool(seen[0][1].get("strict", False)) == strict if seen else False)
+    P.prove("a_docstring_object_exactly_when_a_literal_was_found", z3.BoolVal(res is not None) == has)
+    if res is not None:
+        f = res.fields
+        P.prove("text_is_the_literal_even_when_empty", zbool(P.eq(f["value"], text)))
+        P.prove("span_is_the_literals", z3.And(zbool(P.eq(f["lineno"], ln)), zbool(P.eq(f["endlineno"], eln))))
+        P.prove("parser_settings_are_the_visitors", f["parser"] is parser and f["parser_options"] is options)
+    P.cover("_get_docstring")
 
 
 def lemmas(tier, seed):
